@@ -22,6 +22,7 @@ from math import prod
 from typing import cast, TYPE_CHECKING
 
 import numpy as np
+import sympy
 
 from cirq import circuits, ops, protocols
 from cirq.study.resolver import ParamResolver
@@ -37,8 +38,6 @@ from cirq.transformers import (
 from cirq.transformers.analytical_decompositions import single_qubit_decompositions
 
 if TYPE_CHECKING:
-    import sympy
-
     import cirq
 
 
@@ -293,10 +292,31 @@ def merge_single_qubit_gates_to_phxz_symbolized(
             for op in circuit_tagged.all_operations()
         ]
     )
+    # Symbols that the symbolized single-qubit gates share with other operations: the other
+    # operations must keep them, so they are renamed there while the single-qubit gates are
+    # resolved, and renamed back in the returned circuit.
+    shared_symbols: set[sympy.Symbol] = single_qubit_gate_symbols & set().union(
+        *[
+            protocols.parameter_symbols(op)
+            for op in circuit_tagged.all_operations()
+            if symbolized_single_tag not in op.tags
+        ]
+    )
+    rename = {s: sympy.Symbol(f"_tmp_shared_{s.name}") for s in shared_symbols}
+    if shared_symbols:
+        circuit_tagged = transformer_primitives.map_operations(
+            circuit_tagged,
+            lambda op, _: (
+                op
+                if symbolized_single_tag in op.tags
+                else protocols.resolve_parameters_once(op, rename)
+            ),
+            deep=deep,
+        )
     # Remaining symbols, e.g., 2 qubit gates' symbols. Sweep of those symbols keeps unchanged.
     remaining_symbols: set[sympy.Symbol] = set(
         protocols.parameter_symbols(circuit) - single_qubit_gate_symbols
-    )
+    ).union(shared_symbols)
     # If all single qubit gates are not parameterized, call the non-parameterized version of
     # the transformer.
     if not single_qubit_gate_symbols:
@@ -338,6 +358,11 @@ def merge_single_qubit_gates_to_phxz_symbolized(
         ),
         remove_if=lambda tag: str(tag).startswith(symbolized_single_tag),
     )
+
+    if shared_symbols:
+        new_circuit = protocols.resolve_parameters_once(
+            new_circuit, {renamed: s for s, renamed in rename.items()}
+        )
 
     # Step 3, get N sets of parameterizations as new_sweep.
     if remaining_symbols:
